@@ -1,6 +1,8 @@
 #!/bin/bash
-# Run the registered quick check of each seeded change's property against /repo with the change
-# applied (git apply ... ; check ; git checkout -- .).  driver/eval_seeded.sh [tier] [names...]
+# Run the registered check of each seeded change's property against /repo with the change applied
+# (git apply ... ; ./check ; git checkout -- .) and record the outcome in seeded/<name>/result.json.
+#   driver/eval_seeded.sh [tier] [names...]
+# Never run while anything else is building from /repo (vp run uses /repo itself).
 TIER=${1:-quick}; shift
 cd "$(dirname "$(readlink -f "$0")")/.." || exit 2
 NAMES="$@"; [ -z "$NAMES" ] && NAMES=$(ls seeded | grep -v RESULTS)
@@ -8,8 +10,13 @@ for n in $NAMES; do
   d=seeded/$n; [ -f $d/patch.diff ] || continue
   prop=$(python3 -c "import json; print(json.load(open('$d/meta.json'))['property'])")
   out=$(driver/try_patch.sh $d/patch.diff $TIER $prop 2>&1)
-  rc=$(echo "$out" | grep -oE "^$prop rc=[0-9]+" | head -1)
+  rc=$(echo "$out" | grep -oE "^$prop rc=[0-9]+" | head -1 | sed 's/.*rc=//')
   nv=$(echo "$out" | grep -c "^VIOLATION")
-  first=$(echo "$out" | grep -A1 "^VIOLATION" | grep -v "^VIOLATION" | head -1 | cut -c1-260)
-  echo "$n :: $rc violations=$nv :: $first"
+  first=$(echo "$out" | grep -A1 "^VIOLATION" | grep -v "^VIOLATION" | head -1 | cut -c1-400)
+  echo "$n :: $prop rc=$rc violations=$nv :: $(echo "$first" | cut -c1-260)"
+  python3 - "$d" "$prop" "$TIER" "$rc" "$nv" "$first" "${VERIF_SKIP_MIRI:-}" <<'PY'
+import json,sys
+d,prop,tier,rc,nv,first,skip=sys.argv[1:8]
+json.dump({"check":f"./check {prop} --tier {tier}"+(" (Miri/memcheck skipped)" if skip else ""),"exit_code":int(rc or -1),"violation_lines":int(nv),"caught":rc=="1","first_witness":first.strip()},open(d+"/result.json","w"),indent=1)
+PY
 done
